@@ -108,7 +108,7 @@ def run(ctx):
         if (sc["objects_found_at_position"] != sc["objects_expected"] or sc["objects_expected"] == 0
                 or sc["tables_over_64k"] < 1 or sc["alias_pairs_u16"] < 2 or sc["alias_pairs_u8"] <= sc["alias_pairs_u16"]
                 or sc["alias_pairs_rel"] < 1 or sc["alias_pairs_lookup_index_u8"] < 1
-                or sc["distinct_results"] != sc["feature_sets"]):
+                or sc["distinct_results"] != sc["feature_sets"] or not sc["second_language_system_effective"]):
             raise vlib.ToolError("collide font does not have the layout the model dictates: %s" % json.dumps(sc))
     hb = rep.get("histories_by_family", {})
     if (hb.get("dmg", 0) == 0 or hb.get("collide", 0) == 0 or rep.get("damaged_probes_reporting_the_error", 0) == 0
